@@ -23,6 +23,10 @@ theorem toInt_natCast (n : Nat) : Num.toInt (((n : Int) : Rat)) = (n : Int) := b
   show (if ((n : Int) : Rat) < 0 then -((-((n : Int) : Rat)).floor) else (((n : Int) : Rat)).floor) = _
   rw [if_neg (natCast_not_neg n), Rat.floor_intCast]
 
+theorem truncInt_natCast (n : Nat) : Num.truncInt (((n : Int) : Rat)) = (n : Int) := by
+  show (if ((n : Int) : Rat) < 0 then -((-((n : Int) : Rat)).floor) else (((n : Int) : Rat)).floor) = _
+  rw [if_neg (natCast_not_neg n), Rat.floor_intCast]
+
 /-- the half-integers: `(2k+1)/2 + 1/2 = k+1` and `-( (2k+1)/2 ) + 1/2 = -k` -/
 theorem half_add_half (k : Int) : ((2 * k + 1 : Int) : Rat) / 2 + 1 / 2 = ((k + 1 : Int) : Rat) := by
   rw [Rat.intCast_add, Rat.intCast_add, Rat.intCast_mul]
